@@ -179,6 +179,12 @@ class Flow:
         n = self.module.defs.get(qual)
         if not isinstance(n, ast.FunctionDef):
             raise AnalysisError(f"anchor vanished: {self.module.rel}:{qual}")
+        x = getattr(self, "expanded", None)
+        if x is not None:  # (private helpers expanded in place, as every other reader of the code sees them)
+            try:
+                return x(qual)
+            except Exception:
+                return n
         return n
 
     def analyse(self, qual, args: dict):
@@ -543,6 +549,28 @@ class Frame:
             return self.subscript(n)
         if isinstance(n, ast.Call):
             return self.call(n)
+        if isinstance(n, (ast.GeneratorExp, ast.ListComp)) and len(n.generators) == 1 and not n.generators[0].ifs:
+            # [E(e) for e in A] over an array A whose entry j depends on x[0..j+lag]: an element-wise map when E reads nothing of
+            # the data but its element (the targets are bound to the array itself in the element-wise view)
+            g = n.generators[0]
+            a = self.ev(g.iter)
+            if isinstance(a, Arr) and NINF < a.lag < INF:
+                names = [t.id for t in ast.walk(g.target) if isinstance(t, ast.Name)]
+                saved = {k: self.env.get(k) for k in names}
+                for k in names:
+                    self.env[k] = replace(a, data=False, last=None)
+                try:
+                    r = self.ev(n.elt)
+                finally:
+                    for k, v0 in saved.items():
+                        if v0 is None:
+                            self.env.pop(k, None)
+                        else:
+                            self.env[k] = v0
+                if isinstance(r, Arr):
+                    return replace(r, dlen=a.dlen, minn=max(r.minn, a.minn))
+                if isinstance(r, Sc) and r.dep == "const":
+                    return Arr(NINF, a.dlen, False, None, "", None, a.minn)
         if isinstance(n, (ast.GeneratorExp, ast.ListComp, ast.SetComp)):
             # element-wise comprehension over the sample -> a data-dependent collection
             deps = [self.ev(g.iter) for g in n.generators]
@@ -720,6 +748,44 @@ class Frame:
                 elif isinstance(v, Arr):
                     out = sc_join(out, LEN)
             return out
+        if name in ("enumerate", "list", "tuple", "iter") and len(args) >= 1:
+            v0 = self.ev(args[0])
+            if isinstance(v0, Arr):
+                return v0  # the same entries in the same order
+        if name in ("itertools.accumulate", "accumulate") and len(args) == 2 and isinstance(args[1], ast.Name):
+            # a fold that reports every intermediate state is a causal scan, provided the step function sees nothing but the
+            # state and the item (a module-level function without free names) and the initial state is a constant or x[0]
+            v0 = self.ev(args[0])
+            step = self.flow.module.defs.get(args[1].id)
+            init = next((k.value for k in n.keywords if k.arg == "initial"), None)
+            closed = False
+            if isinstance(step, ast.FunctionDef):
+                import builtins as _b
+                params = {a_.arg for a_ in step.args.args}
+                stored = {x.id for x in ast.walk(step) if isinstance(x, ast.Name) and isinstance(x.ctx, ast.Store)}
+                free = {x.id for x in ast.walk(step) if isinstance(x, ast.Name) and isinstance(x.ctx, ast.Load)} - params - stored
+                closed = all(hasattr(_b, f_) or f_ in self.flow.np_aliases or f_ in self.flow.math_aliases for f_ in free) \
+                    and not any(isinstance(x, (ast.Global, ast.Nonlocal, ast.Attribute)) and not (isinstance(x, ast.Attribute) and isinstance(x.value, ast.Name)
+                                and (x.value.id in self.flow.np_aliases or x.value.id in self.flow.math_aliases)) for x in ast.walk(step)
+                                if isinstance(x, (ast.Global, ast.Nonlocal, ast.Attribute)))
+
+            def start_ok(nd, depth=0):
+                if nd is None or depth > 4:
+                    return nd is None
+                while isinstance(nd, ast.Name) and isinstance(self.defs.get(nd.id), ast.AST) and depth < 4:
+                    nd, depth = self.defs[nd.id], depth + 1
+                if isinstance(nd, ast.Constant):
+                    return True
+                if isinstance(nd, (ast.Tuple, ast.List)):
+                    return all(start_ok(e, depth + 1) for e in nd.elts)
+                if isinstance(nd, ast.Subscript) and _const_int(nd.slice) == 0:
+                    b0 = self.ev(nd.value)
+                    return isinstance(b0, Arr) and b0.lag == 0 and b0.dlen == 0
+                return False
+            if isinstance(v0, Arr) and NINF < v0.lag < INF and v0.dlen is not None and closed and start_ok(init):
+                k0 = 1 if init is not None else 0
+                return Arr(clamp(v0.lag - k0), v0.dlen + k0, False, None, v0.why, None, v0.minn)
+            return TOP
         if name in ("getattr", "isinstance", "hasattr", "range", "str", "print", "type"):
             for a in args:
                 self.ev(a)
